@@ -178,3 +178,52 @@ func TestC01Sim(t *testing.T) {
 		}
 	})
 }
+
+func TestC17Observer(t *testing.T) {
+	vlib.SetRule("C17", "TestC17Observer", "simulated histories dominated by upserts, deletes (incl. re-creation with empty values) and compactions with thresholds 1-3 on several owners while observers receive lossy, truncated gossip; then a fair closure; oracle: every observer's live view (non-deleted, non-internal keys and values) of every owner equals the owner's own live state; non-trivial = an effective compaction happened while some observer was behind")
+	p := &Profile{Prop: "C17", Oracles: map[string]bool{}, TinyPackets: true, MaxSteps: maxSteps(60, 150),
+		Weights: map[string]int{"upsert": 12, "delete": 9, "compact": 8, "leave": 0, "leaveVia": 0, "close": 0, "crash": 0, "sweep": 0, "toExpiry": 0, "silence": 0, "liveness": 0, "partition": 0, "addConn": 1, "removeConn": 1, "drop": 5, "forge": 0}}
+	vlib.RunSync(t, "C17", func(c *vlib.Case) {
+		s := New(c, p)
+		n := steps(c, p)
+		for i := 0; i < n; i++ {
+			s.Step()
+		}
+		s.Closure()
+		missing, _ := c.Header["closure_missing_items"].(int)
+		if s.sawCompactAfterDelete && missing > 0 {
+			c.NonTrivial()
+		}
+		for _, owner := range s.nodes {
+			want := map[string]string{}
+			for _, e := range owner.n.State.LocalNode().Entries {
+				if !e.Internal && !e.Deleted {
+					want[e.Key] = e.Value
+				}
+			}
+			for _, obs := range s.nodes {
+				if obs == owner {
+					continue
+				}
+				view, ok := obs.n.State.Node(owner.id)
+				if !ok {
+					c.Fatalf("C17: after synchronising, %s does not know %s", obs.id, owner.id)
+				}
+				got := map[string]string{}
+				for _, e := range view.Entries {
+					if !e.Internal && !e.Deleted {
+						got[e.Key] = e.Value
+					}
+				}
+				if len(got) != len(want) {
+					c.Fatalf("C17: after synchronising, %s sees live state %v of %s, the owner has %v", obs.id, got, owner.id, want)
+				}
+				for k, v := range want {
+					if gv, ok := got[k]; !ok || gv != v {
+						c.Fatalf("C17: after synchronising, %s sees %q=%q (present=%v) of %s, the owner has %q", obs.id, k, gv, ok, owner.id, v)
+					}
+				}
+			}
+		}
+	})
+}
